@@ -260,11 +260,14 @@ class CRS:
         if self._crs is other._crs:
             return True
 
-        if self._epsg and other._epsg:
-            return self._epsg == other._epsg
-
         if self._str == other._str:
             return True
+
+        if self._str.startswith("EPSG:") and other._str.startswith("EPSG:"):
+            # two different EPSG codes
+            # (`_epsg` can not be used here: it might have been filled in later
+            #  by `to_epsg()`, which also identifies "close enough" definitions)
+            return False
 
         return self._crs == other._crs
 
